@@ -56,28 +56,37 @@ Theorem C09_engine_computes_semantics : forall m s dat d, run m s dat d = sem_ru
 Proof. exact run_is_sem_run. Qed.
 Print Assumptions C09_engine_computes_semantics.
 
-(** The messages: conf.NewDefaultFormatter ranges over the issue's Params, a Go map, and replaces one
-    placeholder per parameter.  For every shipped language map, type and code, every parameter list
-    without a repeated key whose keys and rendered values contain no braces, and every other order
-    of the same parameters, the message is the same.  (Every shipped template is a sequence of
-    brace-free text and {{name}} placeholders — checked over the tables regenerated from the code —
-    and on such templates sequential replacement is one simultaneous substitution.) *)
+(** The messages: conf.NewDefaultFormatter ranges over the issue's Params, a Go map.  Repaired, it
+    substitutes all placeholders in one pass: for every shipped language map, type and code, every
+    parameter list without a repeated key whose keys contain no braces — the rendered values are
+    arbitrary — and every other order of the same parameters, the message is the same.  (Every
+    shipped template is a sequence of brace-free text and {{name}} placeholders — checked over the
+    tables regenerated from the code — and on such templates one pass is the simultaneous
+    substitution.) *)
 Theorem C09_message_independent_of_parameter_order : forall lang m dtype code ps ps' value,
-  In (lang, m) langs -> Permutation ps ps' -> NoDup (map fst ps) -> params_ok ps = true ->
+  In (lang, m) langs -> Permutation ps ps' -> NoDup (map fst ps) -> keys_ok ps = true ->
   default_format m dtype code ps value = default_format m dtype code ps' value.
 Proof. exact default_format_order_independent. Qed.
 Print Assumptions C09_message_independent_of_parameter_order.
 
-Theorem C09_sequential_replacement_is_simultaneous_substitution : forall ps ts, params_ok ps = true -> forallb tok_ok ts = true ->
-  seq_format ps (render ts) = render (map (subst_all ps) ts).
-Proof. exact sequential_is_simultaneous. Qed.
-Print Assumptions C09_sequential_replacement_is_simultaneous_substitution.
+Theorem C09_one_pass_is_simultaneous_substitution : forall ps, keys_ok ps = true -> forall ts, forallb tok_ok ts = true ->
+  multi_replace (ph_pairs ps) (render ts) = render (map (subst_all ps) ts).
+Proof. exact one_pass_is_simultaneous. Qed.
+Print Assumptions C09_one_pass_is_simultaneous_substitution.
 
-(** PARTIAL by necessity: without the hypothesis on braces the statement is false of the code — a
-    parameter value that spells another parameter's placeholder is or is not substituted depending
-    on the order in which the map is ranged over (only reachable through the Params option with
-    such a value; no built-in test has two parameters). *)
-Theorem C09_message_order_refuted_without_hypotheses :
-  seq_format [("a", "{{b}}"); ("b", "x")] "{{a}}" = "x" /\ seq_format [("b", "x"); ("a", "{{b}}")] "{{a}}" = "{{b}}".
-Proof. exact sequential_replacement_is_order_dependent. Qed.
-Print Assumptions C09_message_order_refuted_without_hypotheses.
+(** As it was (one ReplaceAll per parameter, in map order) the statement was false of the code: a
+    parameter value that spells another parameter's placeholder was or was not substituted depending
+    on the order.  The witness below, replayed on the implementation (String().Min(3, Params{min:
+    "{{hint}}", hint: "three"}) on "x"), gave both messages within 400 calls; repaired in /repo. *)
+Theorem C09_legacy_message_depends_on_order_refuted :
+  default_format_legacy lang_en "string" "min" [("min", "{{hint}}"); ("hint", "three")] "v" = "string must contain at least three character(s)"
+  /\ default_format_legacy lang_en "string" "min" [("hint", "three"); ("min", "{{hint}}")] "v" = "string must contain at least {{hint}} character(s)".
+Proof. exact legacy_message_depends_on_order. Qed.
+Print Assumptions C09_legacy_message_depends_on_order_refuted.
+
+(** the repair changed no message whose parameter values contain no braces *)
+Theorem C09_repair_keeps_brace_free_messages : forall lang m dtype code ps value,
+  In (lang, m) langs -> params_ok ps = true ->
+  default_format m dtype code ps value = default_format_legacy m dtype code ps value.
+Proof. exact repair_keeps_brace_free_messages. Qed.
+Print Assumptions C09_repair_keeps_brace_free_messages.
